@@ -259,7 +259,7 @@ func c09RunTraceD(in c09TraceD) (obs []c09DObs, o puppet.TargetOutcome, m *c09Ma
 	opt := puppet.SessOpt{
 		WrapD:       func(c net.PacketConn) net.PacketConn { pc.PacketConn = c; return pc },
 		OnDTLCP:     func(c *dtlcp.Conn) { pc.T = c },
-		OnHandshake: func(err error) { pc.done = err == nil },
+		OnHandshake: pc.onHandshake,
 		OnFinish:    func() { pc.sample() },
 	}
 	_, o = puppet.RunDTLCPOpt(tk.BuildDTLCP(ep, tk.NewRegistry()), in.Target == "client", opt, func(p *puppet.Peer) {
@@ -303,7 +303,7 @@ func c09RunTraceD(in c09TraceD) (obs []c09DObs, o puppet.TargetOutcome, m *c09Ma
 				p.SendRaw(dg)
 			}
 			p.Absorb(5)
-			running := !p.L.TargetDone()
+			running := !p.L.TargetDone() && !pc.failed()
 			pc.M.mu.Lock()
 			obs = append(obs, c09DObs{Running: running, Hand: pc.lastHand, Pending: pc.lastPending, PendingB: pc.lastPendingB, Retry: pc.lastRetry})
 			pc.M.mu.Unlock()
